@@ -79,6 +79,7 @@ def check_traversals(c, origin_sets=None):
         if not ref2.is_state(l.driver.kind) and rpos[id(l.reader)] >= rpos[id(l.driver)]: return f'reversed_topological_order: reader {l.reader.name} comes after its driver {l.driver.name}'
     # fan-in
     comb = not any(ref2.is_state(n.kind) for n in c.nodes)
+    pending = None
     for origins in (origin_sets if origin_sets is not None else [[n] for n in c.nodes] + [list(c.nodes)[:2]]):
         if not origins: continue
         oset = {id(n) for n in origins}
@@ -98,6 +99,10 @@ def check_traversals(c, origin_sets=None):
         must = reach(False); may = reach(True)
         # a state element itself belongs to the combinational fan-in when it drives into it (path cut AT the element)
         got = list(c.fanin(origins))
+        # queries are independent of each other: an earlier query that was started and abandoned half-way (still alive) changes nothing
+        if pending is not None and [id(n) for n in c.fanin(origins)] != [id(n) for n in got]:
+            return f'fanin({[n.name for n in origins]}) differs when repeated'
+        pending = c.fanin(origins); next(pending, None)
         gids = [id(n) for n in got]
         if len(gids) != len(set(gids)): return 'fanin yields a node twice'
         if not must <= set(gids):
@@ -223,6 +228,11 @@ def locs_job(job):
         for pos_, j in enumerate(order):
             n = Node(c, allnames[j], 'input'); c.io_nodes.append(n); posn[allnames[j]] = pos_
         ff = Node(c, 'data_ff', 'DFF')
+        # state elements: s_nodes lists ports, then flip-flops, then latches (each in creation order); latches are created between flip-flops here
+        st_nodes = []
+        if dims == 1:
+            for j, k in enumerate(vals): st_nodes.append((Node(c, SCHEMES[scheme]('st', k), 'LATCH' if j % 2 == 0 else 'DFF'), k))
+            Node(c, 'zz_last', 'DFF')
         got = c.io_locs('data' if not collide else 'data[' if scheme == 'bracket' and dims == 1 else 'data')
         # expected: positions ordered by numeric index (LSB first), nested for two dimensions
         if collide and not (scheme == 'bracket' and dims == 1): return 1          # prefix deliberately ambiguous: no single documented answer
@@ -237,6 +247,12 @@ def locs_job(job):
             if g2 != len(allnames): bad = f's_locs("data_ff") = {g2}, the flip-flop sits at position {len(allnames)}'
             elif c.io_locs('nothing_like_this') is not None: bad = 'io_locs of an unknown prefix is not None'
             elif c.io_locs('clk') != posn['clk']: bad = f'io_locs("clk") = {c.io_locs("clk")}'
+            elif st_nodes:
+                slist = list(c.io_nodes) + [n for n in c.nodes if n.kind == 'DFF'] + [n for n in c.nodes if n.kind == 'LATCH']
+                wst = [slist.index(n) for n, k in sorted(st_nodes, key=lambda x: x[1])]
+                if len(wst) == 1: wst = wst[0]
+                gst = c.s_locs('st')
+                if gst != wst: bad = f's_locs("st") = {gst}; ports, then flip-flops, then latches ordered LSB to MSB give {wst} (state elements {[(n.name, n.kind) for n, _ in st_nodes]} created in this order)'
         if bad: found.append((bad, vals))
         else: rep.counts['discharged'] += 1
         return 1
@@ -272,7 +288,7 @@ def run(tier, seed):
         elif tier == 'quick' and n == 4:          # quick: 4-node graphs over {input, AND2, fork, DFF}; the full kind set runs in the thorough tier
             for pre in itertools.product(range(len(K4)), repeat=3): J.append(('graph', (list(pre), n, K4)))
     for nl in netlist.g2_shapes() + netlist.g3_random(seed, 20 if tier == 'quick' else 1500) + netlist.g1_primitives()[::5]:
-        for style in ('bench', 'verilog', 'lean'): J.append(('corpus', ('nl', nl.to_json(), style)))
+        for style in ('bench', 'verilog', 'lean', 'vbf'): J.append(('corpus', ('nl', nl.to_json(), style)))
     for r in netlist.G4: J.append(('corpus', r))
     for scheme in SCHEMES:
         for nbits in (1, 2, 3):
